@@ -90,6 +90,45 @@ def recv_case(rnd, host, nblocks_sizes, corrupt):
     return lit, {"intact": intact, "once": once, "messages": len(msgs), "delivered": delivered, "corrupt": corrupt}
 
 
+def retry_case(rnd, host, size, bad_block, pos):
+    """a multi-block message of which block `bad_block` arrives damaged (NAK, the sender's call fails), then the sender's next
+    attempt - the same blocks, same system bytes - arrives undamaged: every block of it is acknowledged, so it must arrive intact, once"""
+    rig = make_rig(host)
+    try:
+        msg = message(rnd, size, 4711)
+        blocks = [b.encode() for b in msg.blocks]
+        bad_block = min(bad_block, len(blocks) - 1)
+        damaged = bytearray(blocks[bad_block])
+        damaged[min(pos, len(damaged) - 1)] ^= rnd.choice([1, 0x10, 0x80])
+        answers = []
+
+        def feed(blk):
+            start = len(b"".join(rig.conn.sent))
+            rig.conn.feed(bytes([ENQ]))
+            if not rig.settle():
+                raise common.Wedged("no rest after ENQ")
+            for ch in chunked(rnd, blk):
+                rig.conn.feed(ch)
+            if not rig.settle():
+                raise common.Wedged("no rest after the block")
+            answers.append(b"".join(rig.conn.sent)[start:].hex())
+
+        for blk in blocks[:bad_block]:
+            feed(blk)
+        feed(bytes(damaged))
+        first_attempt = list(answers)
+        del answers[:]
+        for blk in blocks:
+            feed(blk)
+        all_acked = all(a == bytes([EOT, ACK]).hex() for a in answers)
+        same = [d for d in rig.delivered if d.header.system == msg.header.system]
+        intact = len(same) == 1 and same[0].data == msg.data and (same[0].header.stream, same[0].header.function) == (msg.header.stream, msg.header.function)
+    finally:
+        rig.stop()
+    return {"size": size, "blocks": len(blocks), "damaged_block": bad_block + 1, "damaged_byte": pos, "first_attempt_answers": first_attempt, "second_attempt_answers": answers,
+            "second_attempt_all_acknowledged": all_acked, "delivered_lengths": [len(d.data) for d in same], "intact_once": intact}
+
+
 def send_case(rnd, host, size, script):
     """the library sends a message; the peer answers ENQ and the block as the script says: 'ack', 'nak', or another byte"""
     rig = make_rig(host)
@@ -217,6 +256,19 @@ def run(tier, replay=None):
         if raw.get("intact") is False or raw.get("once") is False:
             report.violation({"kind": "counterexample", "what": "a message whose blocks were all acknowledged did not arrive exactly once with identical header and body", "case": repr(c), **raw}, True, tag="intact")
             break
+    # a failed attempt followed by the sender's next attempt (same system bytes)
+    retries, rwedged = [], []
+    for host, size, bad_block, pos in ([(False, 300, 1, 20), (True, 600, 2, 5), (False, 500, 1, 255)] if tier == "quick" else
+                                       [(h, sz, b, p) for h in (False, True) for sz in (245, 300, 488, 600, 1000) for b in (1, 2, 3) for p in (1, 5, 20, 254)]):
+        obs = common.guarded(lambda a=(host, size, bad_block, pos): retry_case(rnd, *a), f"retry after a damaged block: host={host} size={size} block={bad_block + 1} byte={pos}", rwedged, 30.0)
+        if obs is None:
+            continue
+        retries.append(obs)
+        if obs["second_attempt_all_acknowledged"] and not obs["intact_once"]:
+            report.violation({"kind": "counterexample", "what": "after an attempt that failed on a damaged block, the sender's next attempt was acknowledged block by block but the message did not arrive intact, once",
+                              **obs}, True, tag="retry")
+            break
+    common.report_wedged(report, rwedged, proof)
     bad, stats = evaluate(lits, "c17")
     spec_bad = [(i, m, sc) for i, m, sc in bad if sc >= 30]
     model_bad = [(i, m, sc) for i, m, sc in bad if m >= 10 and sc < 30]
@@ -245,4 +297,5 @@ def run(tier, replay=None):
     cov["correspondence"] = {k: v for k, v in stats.items() if k != "eval_errors"}
     cov["distribution"] = {"kinds": dict(Counter(c[0] + ("-corrupt" if c[0] == "recv" and c[3] is not None else "") for c in cases)), "device": dict(Counter("host" if c[1] else "equipment" for c in cases))}
     cov["samples"] = [repr(c)[:200] for c in cases[:: max(1, len(cases) // 5)][:5]]
+    cov["retry_after_damaged_block"] = [{k: o[k] for k in ("size", "blocks", "damaged_block", "second_attempt_all_acknowledged", "delivered_lengths", "intact_once")} for o in retries]
     return report.finish()
